@@ -6,7 +6,8 @@ resolved by the solver against the vocabulary the builder can compare it with (t
 literals harvested from the builder's source, the other symbolic names) -- one path per feasible equality pattern, i.e. all strings up
 to the builder's ability to distinguish them.  On each path the step is built on the PREFIX and on a fresh TableDescription with the
 prefix's columns: both must accept or both reject (a simplified prefix must not lose a check), and on acceptance declare the same
-columns.
+columns.  Where the documented rule is a function of the names alone (two-assignment extend / project, pair-keyed join with the
+common-key check requested) the acceptance is also decided against that rule (ORACLES) on every path.
 (b) Rule table: on each prefix, steps that violate exactly one documented rule must be rejected at build time and their conforming
 twins accepted (unknown column, changing a partition / ordering column, using a column the same extend produces, non-aggregating or
 too-complex window / project expression, join keys missing / non-key common columns with the check requested, concat with different
